@@ -526,8 +526,39 @@ pub fn c09_bigshare(o: &mut Out, depth: u32, leaf_len: usize, flags: u32) {
     ORACLE_LIMIT.store(150_000, std::sync::atomic::Ordering::Relaxed);
 }
 
+
+/// `SpendBundle::additions` against the validated conditions, on bundles `run_spendbundle` accepts
+pub fn c09_sb_case(o: &mut Out, css: &[(Coin, Vec<u8>, Vec<u8>)], flags: u32) {
+    let f = ConsensusFlags::from_bits_retain(flags);
+    let runs = puzzle_runs(css, flags);
+    let mut ts: Vec<T> = vec![];
+    for rr in &runs { if let Some((_, h)) = rr.split_once(':') { if let Some(t) = bytes_to_t(&hex::decode(h).unwrap()) { ts.push(t); } } }
+    let pks = all_pks(&ts.iter().collect::<Vec<_>>());
+    let mut line = format!("C09 sb {} {} {} {}", flags, bundle_line_fields(css), if runs.is_empty() { "-".to_string() } else { runs.join(";") }, pks);
+    // marker computed from the INPUT: some condition has a pair in the opcode position (recognises the recorded finding)
+    fn pair_opcode(t: &T) -> bool { let mut it = t; while let T::P(c, nxt) = it { if let T::P(op, _) = &**c { if matches!(&**op, T::P(..)) { return true; } } it = &**nxt; } false }
+    if ts.iter().any(pair_opcode) { line.push_str(" @pair-opcode"); }
+    let spends: Vec<CoinSpend> = css.iter().map(|(c, p, s)| CoinSpend::new(*c, Program::from(p.clone()), Program::from(s.clone()))).collect();
+    let sb = SpendBundle::new(spends, Signature::default());
+    let mut a = make_allocator(ConsensusFlags::LIMIT_HEAP);
+    if run_spendbundle(&mut a, &sb, 11_000_000_000, f, &TEST_CONSTANTS).is_err() { o.case(&line, "invalid-bundle"); return; }
+    let sb2 = sb.clone();
+    let out = match std::panic::catch_unwind(move || sb2.additions()) {
+        Err(_) => "PANIC".to_string(),
+        Ok(Err(e)) => format!("ERR ~{:?}", e),
+        Ok(Ok(v)) => { let mut l: Vec<String> = v.iter().map(|c| format!("{}:{}:{}", hex::encode(c.parent_coin_info), hex::encode(c.puzzle_hash), c.amount)).collect(); l.sort(); format!("adds=[{}]", l.join(",")) }
+    };
+    o.case(&line, &out);
+}
+
 pub fn run_c09(o: &mut Out, seed: u64, thorough: bool, replay: Option<Vec<String>>) {
-    if let Some(lines) = replay { for l in lines { let t: Vec<&str> = l.split_whitespace().collect(); c09_case(o, &hex::decode(t[3]).unwrap(), t[1].parse().unwrap()); } return; }
+    if let Some(lines) = replay { for l in lines { let t: Vec<&str> = l.split_whitespace().collect();
+        if t[1] == "sb" {
+            let css: Vec<(Coin, Vec<u8>, Vec<u8>)> = if t[3] == "-" { vec![] } else { t[3].split(';').map(|e| { let f: Vec<&str> = e.split(':').collect();
+                (Coin::new(Bytes32::new(hex::decode(f[0]).unwrap().try_into().unwrap()), Bytes32::new(hex::decode(f[1]).unwrap().try_into().unwrap()), f[2].parse().unwrap()), hex::decode(f[3]).unwrap(), hex::decode(f[4]).unwrap()) }).collect() };
+            c09_sb_case(o, &css, t[2].parse().unwrap());
+        } else if l.contains("@reveal-over-2MB") { c09_bigshare(o, 11, 1000, t[1].parse().unwrap()); }
+        else { c09_case(o, &hex::decode(t[3]).unwrap(), t[1].parse().unwrap()); } } return; }
     let p = pools();
     let mut r = Rng::new(seed ^ 0xc09);
     // memo / hint shapes, exhaustively on a fixed spend
@@ -541,8 +572,14 @@ pub fn run_c09(o: &mut Out, seed: u64, thorough: bool, replay: Option<Vec<String
         let g = quoted_generator(&[sp], nil(), nil());
         for flags in [F_DONT_VALIDATE, F_DONT_VALIDATE | F_COST] { c09_case(o, &to_bytes(&g), flags); }
     }}
+    // SpendBundle::additions on accepted bundles
+    for _ in 0..(if thorough { 20_000 } else { 2_000 }) {
+        let css = gen_coin_spends(&mut r, &p);
+        let mut flags = F_DONT_VALIDATE; if r.chance(1, 2) { flags |= F_COST; }
+        c09_sb_case(o, &css, flags);
+    }
     // shared-subtree reveals just below and above the 2 MB plain-serialisation limit
-    c09_bigshare(o, 10, 1000, F_DONT_VALIDATE);
+    if thorough { c09_bigshare(o, 10, 1000, F_DONT_VALIDATE); }
     c09_bigshare(o, 11, 1000, F_DONT_VALIDATE);
     let n = if thorough { 60_000 } else { 6_000 };
     for _ in 0..n {
